@@ -86,16 +86,17 @@ func c02b(c *Ctx) {
 		return
 	}
 	want := map[string]string{"==": "eq", "!=": "ne", "<": "lt", "<=": "le", ">": "gt", ">=": "ge"}
+	E := exprRoot(fn)
 	arms := map[string]bool{}
 	for _, ws := range c.sitesOf(fn) {
 		if !ws.isFmt || !strings.HasPrefix(ws.format, "\tgoto_if_") {
 			continue
 		}
-		cc := strings.TrimSuffix(strings.TrimPrefix(ws.format, "\tgoto_if_"), " %s_%d\n")
+		cc := strings.SplitN(strings.TrimPrefix(ws.format, "\tgoto_if_"), " ", 2)[0]
 		var ops []string
 		for _, l := range siteMust(ws) {
-			if strings.HasPrefix(l, `+($1.operatorExpression.Operator == "`) {
-				ops = append(ops, strings.TrimSuffix(strings.TrimPrefix(l, `+($1.operatorExpression.Operator == "`), `")`))
+			if strings.HasPrefix(l, `+(`+E+`.Operator == "`) {
+				ops = append(ops, strings.TrimSuffix(strings.TrimPrefix(l, `+(`+E+`.Operator == "`), `")`))
 			}
 		}
 		pos := c.W.Pos(ws.call.Pos())
@@ -116,7 +117,7 @@ func c02b(c *Ctx) {
 	found := false
 	var plainD, strictD dnf
 	nPlain, nStrict := 0, 0
-	strictLit := "($1.operatorExpression.ComparisonValueType == 1)"
+	strictLit := "(" + E + ".ComparisonValueType == 1)"
 	for _, ws := range c.sitesOf(fn) {
 		if !ws.isFmt || len(ws.argT) != 2 || (ws.format != "\tcompare %s, %s\n" && ws.format != "\tcompare_var_to_value %s, %s\n") {
 			if ws.isFmt && ws.format == "\t%s %s, %s\n" {
@@ -134,7 +135,7 @@ func c02b(c *Ctx) {
 			nPlain++
 			plainD = orDNF(plainD, ws.cond)
 		}
-		c.Check(ws.argT[0] == "$1.operatorExpression.Operand.Literal" && ws.argT[1] == "$1.operatorExpression.ComparisonValue", fmt.Sprintf("var-compare/operands#%d", nPlain+nStrict), pos, "compare <operand>, <comparison value>", "compare line prints ("+ws.argT[0]+", "+ws.argT[1]+")")
+		c.Check(ws.argT[0] == E+".Operand.Literal" && ws.argT[1] == E+".ComparisonValue", fmt.Sprintf("var-compare/operands#%d", nPlain+nStrict), pos, "compare <operand>, <comparison value>", "compare line prints ("+ws.argT[0]+", "+ws.argT[1]+")")
 	}
 	if found {
 		okCmp := nPlain > 0 && nStrict > 0 && dnfEquiv(strictD, mkDNF([]string{"+" + strictLit})) && dnfEquiv(plainD, mkDNF([]string{"-" + strictLit}))
@@ -189,23 +190,28 @@ func c02b(c *Ctx) {
 }
 
 func c02c(c *Ctx) {
-	setD := mkDNF([]string{`+($1.operatorExpression.Operator == "==")`, `+($1.operatorExpression.ComparisonValue == "TRUE")`}, []string{`+($1.operatorExpression.Operator == "!=")`, `+($1.operatorExpression.ComparisonValue == "FALSE")`})
 	for _, s := range []struct{ fn, set, unset string }{
-		{"emitter.renderFlagComparison", "\tgoto_if_set %s, %s_%d\n", "\tgoto_if_unset %s, %s_%d\n"},
-		{"emitter.renderDefeatedComparison", "\tgoto_if 1, %s_%d\n", "\tgoto_if 0, %s_%d\n"},
+		{"emitter.renderFlagComparison", "\tgoto_if_set %s, ", "\tgoto_if_unset %s, "},
+		{"emitter.renderDefeatedComparison", "\tgoto_if 1, ", "\tgoto_if 0, "},
 	} {
 		fn := c.Fn(s.fn)
 		if fn == nil {
 			continue
 		}
+		// the expression is the destination's, or is handed in itself; the label is formatted
+		// here ("%s_%d") or handed in ready ("%s")
+		E := exprRoot(fn)
+		setD := mkDNF([]string{`+(` + E + `.Operator == "==")`, `+(` + E + `.ComparisonValue == "TRUE")`}, []string{`+(` + E + `.Operator == "!=")`, `+(` + E + `.ComparisonValue == "FALSE")`})
 		var setW, unsetW *writeSite
 		ws := c.sitesOf(fn)
 		for i := range ws {
-			switch ws[i].format {
-			case s.set:
-				setW = &ws[i]
-			case s.unset:
-				unsetW = &ws[i]
+			for _, tail := range []string{"%s_%d\n", "%s\n"} {
+				switch ws[i].format {
+				case s.set + tail:
+					setW = &ws[i]
+				case s.unset + tail:
+					unsetW = &ws[i]
+				}
 			}
 		}
 		if setW == nil || unsetW == nil {
@@ -214,13 +220,13 @@ func c02c(c *Ctx) {
 		}
 		gotSet := setW.cond
 		gotUnset := unsetW.cond
-		dom := map[string][]string{"$1.operatorExpression.Operator": {"==", "!="}, "$1.operatorExpression.ComparisonValue": {"TRUE", "FALSE"}}
+		dom := map[string][]string{E + ".Operator": {"==", "!="}, E + ".ComparisonValue": {"TRUE", "FALSE"}}
 		c.Check(dnfEquivDomain(gotSet, setD, dom), s.fn+"/set-iff", c.W.Pos(setW.call.Pos()), "branch-if-set exactly for (== TRUE) or (!= FALSE)", "the 'set' branch is rendered under ["+gotSet.String()+"], expected (Operator == EQ && Value == TRUE) || (Operator == NEQ && Value == FALSE)")
 		// complement
 		all := orDNF(gotSet, gotUnset)
 		c.Check(dnfEquivDomain(all, mkDNF([]string{}), dom) && dnfEquivDomain(andDNF(gotSet, gotUnset), dnf{}, dom), s.fn+"/unset-otherwise", c.W.Pos(unsetW.call.Pos()), "branch-if-unset in every other case", "the 'unset' branch is rendered under ["+gotUnset.String()+"], which is not the complement of the 'set' condition")
 		if strings.Contains(s.set, "%s,") {
-			c.Check(setW.argT[0] == "$1.operatorExpression.Operand.Literal" && unsetW.argT[0] == "$1.operatorExpression.Operand.Literal", s.fn+"/operand", c.W.Pos(setW.call.Pos()), "the flag operand is printed", "flag comparison prints a different operand")
+			c.Check(setW.argT[0] == E+".Operand.Literal" && unsetW.argT[0] == E+".Operand.Literal", s.fn+"/operand", c.W.Pos(setW.call.Pos()), "the flag operand is printed", "flag comparison prints a different operand")
 		} else {
 			var chk *writeSite
 			for i := range ws {
@@ -228,7 +234,7 @@ func c02c(c *Ctx) {
 					chk = &ws[i]
 				}
 			}
-			ok := chk != nil && len(chk.argT) == 1 && chk.argT[0] == "$1.operatorExpression.Operand.Literal" && instrDominates(chk.call.(ssa.Instruction), setW.call.(ssa.Instruction)) && instrDominates(chk.call.(ssa.Instruction), unsetW.call.(ssa.Instruction))
+			ok := chk != nil && len(chk.argT) == 1 && chk.argT[0] == E+".Operand.Literal" && instrDominates(chk.call.(ssa.Instruction), setW.call.(ssa.Instruction)) && instrDominates(chk.call.(ssa.Instruction), unsetW.call.(ssa.Instruction))
 			c.Check(ok, s.fn+"/checktrainerflag-first", c.W.FuncPos(fn), "checktrainerflag <operand> precedes the branch", "checktrainerflag <operand> is not written before the goto_if")
 		}
 	}
@@ -856,4 +862,20 @@ func c02i(c *Ctx) {
 		}
 		c.Check(bad == "", "immutable/"+typ, "emitter/branch.go", typ+" values are only written while they are being constructed", "a "+typ+" is modified after construction: "+bad+" (the wiring established by the constructors could be altered)")
 	}
+}
+
+// exprRoot: the term of the operator expression a comparison renderer works on — a field of
+// the destination it is given, or a parameter of its own.
+func exprRoot(fn *ssa.Function) string {
+	for i, p := range fn.Params {
+		if typeIs(p.Type(), "ast", "OperatorExpression") {
+			return fmt.Sprintf("$%d", i)
+		}
+	}
+	for i, p := range fn.Params {
+		if typeIs(p.Type(), "emitter", "conditionDestination") {
+			return fmt.Sprintf("$%d.operatorExpression", i)
+		}
+	}
+	return "$1.operatorExpression"
 }
